@@ -811,6 +811,29 @@ func stdIdents(k int) []ident {
 	return nil
 }
 
+// randIdents: 1-3 identities with random (also odd) action strings, sometimes an anonymous one
+func randIdents(rng *hx.Rng) []ident {
+	pool := []string{"Admin", "Read", "Write", "List", "Tagging", "Read:b1", "Write:b1", "Write:b1*", "Admin:b1*", "Write:b*", "Read:*", "Admin:*", "*",
+		"Write:", "Tagging:b2", "List:b10", "Wri*", "Write:b2*", "Admin:b2", "Read:b10", ":b1", "Write:b1:x", "List:*", "Tagging:b1*", "write", "Write*"}
+	var out []ident
+	n := 1 + rng.Intn(3)
+	for i := 0; i < n; i++ {
+		var acts []string
+		for k := rng.Intn(4); k > 0; k-- {
+			acts = append(acts, pool[rng.Intn(len(pool))])
+		}
+		out = append(out, ident{fmt.Sprintf("u%d", i), acts, []cred{{fmt.Sprintf("AKU%d", i), fmt.Sprintf("sku%d", i)}}})
+	}
+	if rng.Chance(1, 2) {
+		var acts []string
+		for k := rng.Intn(3); k > 0; k-- {
+			acts = append(acts, pool[rng.Intn(len(pool))])
+		}
+		out = append(out, ident{"anonymous", acts, nil})
+	}
+	return out
+}
+
 type routeShape struct {
 	method, path, query, copysrc, ctype string
 }
@@ -907,10 +930,17 @@ type credChoice struct{ ak, sk string }
 
 func generate(a *hx.Args, rng *hx.Rng) {
 	styles := []string{"none", "v4h", "v4p", "v2h", "v2p", "bearer", "garbage", "empty"}
-	ncfg := 4
+	nrand := 2
+	if a.Thorough() {
+		nrand = 8
+	}
+	ncfg := 4 + nrand
 	for c := 0; c < ncfg; c++ {
 		id := fmt.Sprintf("c%d", c)
 		ids := stdIdents(c)
+		if c >= 4 {
+			ids = randIdents(rng)
+		}
 		newServer(id, ids)
 		if c == 0 {
 			emitFacts(servers[id])
@@ -937,8 +967,26 @@ func generate(a *hx.Args, rng *hx.Rng) {
 			}
 			runReq(q)
 		}
+		// deterministic positives: every configured key, well signed in every style, on the routes with their own verification
+		for _, cc := range ccs {
+			o := "/b1/dir/obj"
+			none := credChoice{}
+			for _, style := range []string{"v4h", "v4p", "v2h", "v2p"} {
+				emit(routeShape{"GET", o, "", "none", "none"}, style, cc, "valid", "none", "none", none, "valid")
+				emit(routeShape{"PUT", o, "", "none", "none"}, style, cc, "valid", "none", "none", none, "valid")
+			}
+			emit(routeShape{"PUT", o, "", "none", "none"}, "v4h", cc, "valid", "streaming", "none", none, "valid")
+			emit(routeShape{"PUT", o, "partNumber=1&uploadId=u1", "none", "none"}, "v4h", cc, "valid", "streaming", "none", none, "valid")
+			emit(routeShape{"POST", "/b1", "", "none", "multipart"}, "none", none, "valid", "none", "pol4", cc, "valid")
+			emit(routeShape{"POST", "/b1", "", "none", "multipart"}, "none", none, "valid", "none", "pol2", cc, "valid")
+			emit(routeShape{"GET", "/", "", "none", "none"}, "v4h", cc, "valid", "none", "none", none, "valid")
+		}
+		emit(routeShape{"GET", "/b1/dir/obj", "", "none", "none"}, "none", credChoice{}, "valid", "none", "none", credChoice{}, "valid")
 		// systematic part: every shape x style x (a few credentials) with the sha header off / streaming
 		for bi, b := range buckets {
+			if c >= 4 {
+				break // random identity sets: random requests only
+			}
 			for si, sh := range allShapes(b) {
 				for _, style := range styles {
 					for _, sha := range []string{"none", "streaming"} {
@@ -995,6 +1043,16 @@ func generate(a *hx.Args, rng *hx.Rng) {
 			style := styles[rng.Intn(len(styles))]
 			cc := ccs[rng.Intn(len(ccs))]
 			validity := rng.Pick([]string{"valid", "valid", "valid", "tamper", "expired"})
+			if c >= 4 {
+				// random identity sets exercise canDo: mostly well-signed requests of configured keys
+				style = rng.Pick([]string{"v4h", "v4p", "v2h", "v2p", "v4h", "none"})
+				if len(ccs) > 2 {
+					cc = ccs[rng.Intn(len(ccs)-2)]
+				}
+				if rng.Chance(9, 10) {
+					validity = "valid"
+				}
+			}
 			if validity == "expired" && style != "v4p" && style != "v2p" {
 				validity = "valid"
 			}
